@@ -394,7 +394,11 @@ def run(ctx, rep):
     # applies another amount than the one it checked and reported loses or invents allowable expenditure (seeded change C03-s4)
     import rules.c11 as c11
     r3 = Report("tmp")
-    c11.adjustments(R, r3)
+    appo_ = c11.adjustments(R, r3)
+    if appo_:
+        # the whole adjustment reaches the lots: each lot receives adjustment × held ÷ total held and nothing caps or floors a
+        # lot's share — a share cut at the lot's own cost simply vanishes from the books (shared with C11-R4; seeded change C03-s7)
+        c11.order_and_who(R, r3, appo_)
     for o in r3.obligations:
         # what is moved (R1) and that the amount applied is the amount checked (R2 guard); which lots' cost the guard counts is a
         # question of acceptance (C11), not of conservation
